@@ -1175,6 +1175,13 @@ def register_last(lib):
     I = lib.I
     reg = lib.reg
 
+    @reg(r'^<.* as Fn(Mut|Once)?<\(.*\)>>::call(_mut|_once)?$', 'Fn::call on a closure / fn item held in a variable')
+    def _fn_call(fr, name, args, ops):
+        f = args[0]
+        tup = args[1] if len(args) > 1 else UNIT
+        actual = list(tup) if type(tup) is L else []
+        return I.call_closure(fr, f, actual)
+
     @reg(r'^<(std::ops::|core::ops::|std::iter::|core::iter::|std::slice::|core::slice::)?(Range|RangeInclusive|StepBy|Rev|Chain|Enumerate|Skip|Take|Zip|Copied|Map|Iter|ChunksExact|Chunks|Windows)<.*> as Clone>::clone$',
          'Clone::clone of an iterator (independent copy of its position)')
     def _clone_iter(fr, name, args, ops):
